@@ -110,6 +110,12 @@ type halfConn struct {
 	net.Conn
 	shutCh chan struct{}
 	once   sync.Once
+	// finalNext: the peer closes right behind the bytes it writes next; the Read that takes them hands
+	// them over TOGETHER with the end of the stream (n > 0, io.EOF), as io.Reader allows and
+	// crypto/tls does for a record followed by close_notify.  pending: bytes read ahead while
+	// looking for that end.
+	finalNext int32
+	pending   []byte
 }
 
 func newHalfConn(c net.Conn) *halfConn {
@@ -137,11 +143,38 @@ func (h *halfConn) Read(p []byte) (int, error) {
 	if h.isShut() {
 		return 0, io.EOF
 	}
+	if len(h.pending) > 0 && len(p) > 0 {
+		n := copy(p, h.pending)
+		h.pending = h.pending[n:]
+		if len(h.pending) > 0 || atomic.LoadInt32(&h.finalNext) == 0 {
+			return n, nil
+		}
+		return h.withEnd(p, n)
+	}
 	n, err := h.Conn.Read(p)
 	if err != nil && n == 0 && h.isShut() {
 		return 0, io.EOF
 	}
+	if n > 0 && err == nil && atomic.LoadInt32(&h.finalNext) == 1 {
+		return h.withEnd(p, n)
+	}
 	return n, err
+}
+
+// withEnd: p[:n] has been read; if the peer's close follows (within two seconds), the caller gets
+// (n, io.EOF); a byte read ahead instead is kept for the next Read
+func (h *halfConn) withEnd(p []byte, n int) (int, error) {
+	h.Conn.SetReadDeadline(time.Now().Add(2 * time.Second))
+	var one [1]byte
+	m, err := h.Conn.Read(one[:])
+	if m > 0 {
+		h.pending = append(h.pending, one[:m]...)
+		return n, nil
+	}
+	if err == io.EOF {
+		return n, io.EOF
+	}
+	return n, nil
 }
 
 func (h *halfConn) SetReadDeadline(t time.Time) error {
@@ -669,12 +702,17 @@ func (b *brokerCore) handle(ws []string) string {
 		}
 		cl, sv0 := net.Pipe()
 		var sv net.Conn = sv0
+		var half *halfConn
 		if b.failWrite {
 			// `failfirst`: the broker's end of the connection refuses every write (the peer has gone
 			// after sending its first packet): the answer to the first packet cannot be written
 			sv = &failWriteConn{Conn: sv0}
+		} else {
+			half = newHalfConn(sv0)
+			sv = half
 		}
 		c := newRawClient(id, cl)
+		c.half = half
 		c.stopped = make(chan struct{})
 		stoppedMu.Lock()
 		stoppedChans[sv] = c.stopped
@@ -812,6 +850,10 @@ func (b *brokerCore) handle(ws []string) string {
 		}
 		b.rawConn = id
 		c.pend = nil
+		if len(ws) > 3 && ws[3] == "eof" && c.half != nil {
+			// the last bytes and the end of the stream reach the broker in ONE read (n > 0, io.EOF)
+			atomic.StoreInt32(&c.half.finalNext, 1)
+		}
 		c.write(unhex(ws[2]))
 		c.conn.Close()
 		c.waitUntil(func() bool { return c.eof }, brokerWait)
